@@ -270,6 +270,66 @@ Definition known_sites : list string :=
     (* blockchain read guard + mempool write guard alive, blockchain read again (miner target unset) *)
     "saito_wasm::saitowasm::produce_block_with_gt#5" ]%string.
 
+(* the listed sites with the exact (held, acquired) pairs that make them findings: a listed site does not
+   excuse a different violation at the same place (checked by [pairs_pinned], props/C20.v) *)
+Definition known_pairs : list (string * lock * lock) :=
+  [ ("saito_rust::main::run_utxo_to_issuance_converter#2", LCfg, LCfg);
+    ("saito_rust::main::run_utxo_to_issuance_converter#3", LCfg, LCfg);
+    ("saito_wasm::saitowasm::create_transaction#2", LWallet, LCfg);
+    ("saito_wasm::saitowasm::create_transaction#3", LWallet, LBlockchain);
+    ("saito_wasm::saitowasm::create_transaction_with_multiple_payments#2", LWallet, LCfg);
+    ("saito_wasm::saitowasm::create_transaction_with_multiple_payments#3", LWallet, LBlockchain);
+    ("saito_wasm::saitowasm::produce_block_with_gt#5", LMempool, LBlockchain);
+    ("saito_wasm::saitowasm::produce_block_with_gt#5", LBlockchain, LBlockchain) ]%string.
+
+Definition pair_listed (v : violation) : bool :=
+  existsb (fun p => match p with (site, h, l) =>
+             String.eqb site (v_site v) && lock_eqb h (v_held v) && lock_eqb l (v_acq v) end) known_pairs.
+
+(* every violation at a listed site is one of the listed pairs *)
+Definition pairs_pinned (g : graph) : bool :=
+  forallb (fun v => negb (in_known known_sites (v_site v)) || pair_listed v) (violations g).
+
+(* saito-wasm exports that touch a shared lock without holding the SAITO mutex, as of the reviewed tree.
+   The gate is an anchored mechanism of the property; it is not universal (this list), which is why
+   violations under the gate are listed findings.  Pinning the list makes any FURTHER export that loses or
+   delays its `SAITO.lock().await` break the obligation [ungated_pinned] (props/C20.v). *)
+Definition known_ungated : list string :=
+  [ "saito_wasm::saitowasm::initialize";
+    "saito_wasm::wasm_blockchain::WasmBlockchain::get_fork_id";
+    "saito_wasm::wasm_blockchain::WasmBlockchain::get_genesis_block_id";
+    "saito_wasm::wasm_blockchain::WasmBlockchain::get_genesis_timestamp";
+    "saito_wasm::wasm_blockchain::WasmBlockchain::get_hashes_at_id";
+    "saito_wasm::wasm_blockchain::WasmBlockchain::get_last_block_hash";
+    "saito_wasm::wasm_blockchain::WasmBlockchain::get_last_block_id";
+    "saito_wasm::wasm_blockchain::WasmBlockchain::get_last_burnfee";
+    "saito_wasm::wasm_blockchain::WasmBlockchain::get_last_timestamp";
+    "saito_wasm::wasm_blockchain::WasmBlockchain::get_latest_block_id";
+    "saito_wasm::wasm_blockchain::WasmBlockchain::get_longest_chain_hash_at";
+    "saito_wasm::wasm_blockchain::WasmBlockchain::get_longest_chain_hash_at_id";
+    "saito_wasm::wasm_blockchain::WasmBlockchain::get_lowest_acceptable_block_hash";
+    "saito_wasm::wasm_blockchain::WasmBlockchain::get_lowest_acceptable_block_id";
+    "saito_wasm::wasm_blockchain::WasmBlockchain::get_lowest_acceptable_timestamp";
+    "saito_wasm::wasm_blockchain::WasmBlockchain::reset";
+    "saito_wasm::wasm_blockchain::WasmBlockchain::set_fork_id";
+    "saito_wasm::wasm_blockchain::WasmBlockchain::set_safe_to_prune_transaction";
+    "saito_wasm::wasm_wallet::WasmWallet::add_slip";
+    "saito_wasm::wasm_wallet::WasmWallet::add_to_pending";
+    "saito_wasm::wasm_wallet::WasmWallet::get_balance";
+    "saito_wasm::wasm_wallet::WasmWallet::get_key_list";
+    "saito_wasm::wasm_wallet::WasmWallet::get_pending_txs";
+    "saito_wasm::wasm_wallet::WasmWallet::get_private_key";
+    "saito_wasm::wasm_wallet::WasmWallet::get_public_key";
+    "saito_wasm::wasm_wallet::WasmWallet::get_slips";
+    "saito_wasm::wasm_wallet::WasmWallet::load";
+    "saito_wasm::wasm_wallet::WasmWallet::reset";
+    "saito_wasm::wasm_wallet::WasmWallet::save";
+    "saito_wasm::wasm_wallet::WasmWallet::set_private_key";
+    "saito_wasm::wasm_wallet::WasmWallet::set_public_key" ]%string.
+
+Definition ungated_pinned (g : graph) : bool :=
+  forallb (fun n => existsb (String.eqb n) known_ungated) (ungated g).
+
 (* non-vacuity example for props/C20.v: the functions behind DESIGN 9 row 18, transcribed by hand *)
 Definition excerpt : graph :=
   [ mkFn 1 "Network::handle_handshake_response" Core Plain
@@ -336,6 +396,16 @@ Definition explain (g : graph) (known : list string) : list string :=
   let s := summaries g in
   let ag := all_gated_with s g in
   flat_map (fun f => explain_scan known ag s g [] (f_body f)) g.
+
+Definition explain_pairs (g : graph) : list string :=
+  map (fun v => (v_site v ++ " : holds " ++ show_lock (v_held v) ++ ", then acquires " ++ show_lock (v_acq v)
+                 ++ " -- the site is listed in known_sites, but not with this pair of locks (known_pairs)")%string)
+      (filter (fun v => in_known known_sites (v_site v) && negb (pair_listed v)) (violations g)).
+
+Definition explain_ungated (g : graph) : list string :=
+  map (fun n => (n ++ " : wasm export acquires a shared lock (directly or through a callee) before / without "
+                 ++ "holding the SAITO mutex, and is not in known_ungated")%string)
+      (filter (fun n => negb (existsb (String.eqb n) known_ungated)) (ungated g)).
 
 (* ---------- statistics printed by props/C20.v ---------- *)
 Definition count_acq (g : graph) : N :=
